@@ -12,7 +12,7 @@ from __future__ import annotations
 import itertools
 
 from .. import spec
-from ..harness import VERSIONS, Stepper, exc_info, is_library_error, new_gateway
+from ..harness import FAULT_CLASSES, VERSIONS, Stepper, exc_info, is_library_error, new_gateway
 from ..harness import run as arun
 from ..reach import Reach
 
@@ -118,6 +118,7 @@ async def send_case(ctx, case: dict) -> None:
         await stepper.tx(Message(*other_fields))
         transport.take_writes()
         transport.fail_attempts = {transport.attempts}
+        transport.fault_class = FAULT_CLASSES[sum(map(ord, line)) % len(FAULT_CLASSES)]
         await stepper.rx(f"{DEST};255;3;0;{wake};1\n")
         transport.fail_attempts = set()
         await stepper.rx(f"{DEST};255;3;0;{wake};1\n")
@@ -173,6 +174,9 @@ async def fault_send_case(ctx, case: dict) -> None:
     line = ";".join(str(f) for f in fields) + "\n"
     kwargs = {} if case["buffered"] is None else {"message_buffer": case["buffered"]}
     transport.fail_attempts = {transport.attempts}
+    # the failure class rotates through the documented family (deterministic in the case)
+    transport.fault_class = case.get("fault_class") or FAULT_CLASSES[(sum(map(ord, line)) + len(case["dest"])) % len(FAULT_CLASSES)]
+    ctx.obs("fault-class:" + transport.fault_class)
     kind, exc = await stepper.tx(Message(*fields), **kwargs)
     transport.fail_attempts = set()
     attempted = [e[2] for e in transport.events if e[0] == "write-call"]
